@@ -1396,16 +1396,6 @@ func bigOf(v any) (*big.Float, bool) {
 		return f.SetFloat64(x), true
 	case types.Timespan:
 		return f.SetInt64(int64(x)), true
-	case *apd.Decimal:
-		if x.Form != apd.Finite {
-			return nil, false
-		}
-		r, ok := new(big.Rat).SetString(x.Text('f'))
-		if !ok {
-			return nil, false
-		}
-		// exact: decimal text of at most 65+30 digits fits 300-bit mantissa only approximately, so compare rationals
-		return nil, r != nil && false
 	}
 	return nil, false
 }
